@@ -175,11 +175,15 @@ class Gen(object):
             if not kids:
                 continue
             x = r.random()
+            # default entry through the state's own history: the initial transition and, while nothing is remembered, the
+            # history's default transition are both taken when the state is entered
+            hist = [c for c in s.children if c.tag == "history"]
+            first = r.choice(hist) if hist and s is not root and r.random() < 0.4 else r.choice(nonfinal)
             if x < 0.4:
-                s.attrs["initial"] = r.choice(nonfinal).attrs["id"]
+                s.attrs["initial"] = first.attrs["id"]
             elif x < 0.6 and s is not root and self.f["initial_el"]:
                 ini = El("initial")
-                tr = ini.add(El("transition", {"target": r.choice(nonfinal).attrs["id"]}))
+                tr = ini.add(El("transition", {"target": first.attrs["id"]}))
                 self.fill_block(tr, r.randint(0, 2))
                 s.children.insert(0, ini)
                 ini.parent = s
